@@ -18,6 +18,9 @@ SPEC = {
             "with/without startsAt/endsAt on a 30 s instant grid (overlapping, disjoint, out of order, end in the past or equal to "
             "now, re-fired), the same label set twice in a batch, empty-valued labels, invalid label/annotation names, empty label "
             "sets, end before start; interleaved with GETs and with waits across the provider's GC ticks (3/10/30 min); "
+            "`getc` = a GET whose request context is already cancelled (client gone) while the provider holds alerts, `update` = a configuration reload "
+            "reaching the API (API.Update with another resolve_timeout, run outside the bubble and bounded in real time): it must return, and later POSTs "
+            "use the new resolve_timeout (valid_alerts_are_stored class api-wedged-after-aborted-read); "
             "resolve_timeout 1/2/5 min; a case is non-trivial when it hits a tagged branch (post:overlap, post:timeout-resend, "
             "post:explicit-past-end, post:400, gc:collected, get:end-equals-now, get:suppressed, …); engine reload (the real application): an alert that is "
             "silenced AND inhibited plus its active source, GET /api/v2/alerts with inhibited=false / silenced=false / active=false: who is listed "
